@@ -212,7 +212,7 @@ _QUICK_CB = {
             "c00_value_json_lt", "c00_value_cbor_lt", "c00_value_json_u64_gt", "c09_range_json_int", "c09_range_cbor_int",
             "c00_value_json_neg_vs_uint", "c09_range_json_mixed"],
     "C09": ["c09_occ_repeating_cbor", "c09_occ_repeating_json", "c09_range_cbor_int", "c09_range_json_int",
-            "c00_value_cbor_ne", "c00_value_json_ne", "c00_ident_cbor_nint_int", "c00_ident_json_uint_int"],
+            "c00_value_cbor_ne", "c00_value_json_ne", "c00_ident_cbor_nint_int", "c00_ident_json_uint_int", "c00_ident_json_uint_big"],
 }
 _CB_UNREACHED = {"c00_type2_cbor_literal": "visit_type2 on a literal node ran out of 14 GB after 22 min: one level of composition (type2 -> value) is already too much"}
 _CB_FINDINGS = {"c00_value_json_neg_vs_uint": "KF-C01-json-negative-vs-uint-literal", "c09_range_json_mixed": "KF-C01-json-mixed-range",
